@@ -205,21 +205,24 @@ fn as_index_range(pos_range: &PosRange, text: &str) -> TextRange {
 pub fn get_insertion_index(position: &Position, text: &str) -> usize {
     let mut line = 0;
     let mut character = 0;
-    for (i, c) in text.char_indices() {
+    let mut chars = text.char_indices().peekable();
+    while let Some((i, c)) = chars.next() {
         // A character outside of the basic multilingual plane takes up two character offsets.
         // An offset in between them is not skipped, but means the next character.
         if line == position.line && character >= position.character {
             return i;
         }
+        // a carriage return in front of a line feed belongs to the line break
+        let is_line_break = c == '\n' || (c == '\r' && matches!(chars.peek(), Some((_, '\n'))));
+        if is_line_break && line == position.line {
+            // a character offset behind the end of the line means the end of the line,
+            // which is in front of its line break
+            return i;
+        }
         if c == '\n' {
-            if line == position.line {
-                // a character offset behind the end of the line means the end of the line,
-                // which is in front of its line break
-                return if text[..i].ends_with('\r') { i - 1 } else { i };
-            }
             line += 1;
             character = 0;
-        } else {
+        } else if !is_line_break {
             character += c.len_utf16() as u32;
         }
     }
